@@ -51,6 +51,10 @@ fn main() {
                 }
             }
             ["netprobe", dir] => batch::netprobe(dir),
+            ["refrace", e] => match e.parse::<usize>() {
+                Ok(e) if (1..=4096).contains(&e) => batch::refrace(e),
+                _ => "bad-op".to_string(),
+            },
             ["batch", dir, seed, n] => match (seed.parse(), n.parse()) {
                 (Ok(seed), Ok(n)) => batch::run(dir, seed, n, 8),
                 _ => "bad-op".to_string(),
